@@ -77,8 +77,14 @@ pub struct SchedReader<'a> {
     rng: Rng,
     fault_at: Option<usize>,
     fault_kind: io::ErrorKind,
+    /// Some(n): every n-th call fails once with ErrorKind::Interrupted and delivers nothing; the
+    /// call after it proceeds normally (what a signal does to a blocking read).
+    interrupt_every: Option<u64>,
     pub log: Rc<RefCell<ReadLog>>,
 }
+
+/// Text of the transient error injected by `with_interrupts`.
+pub const INTERRUPT_MARK: &str = "xtv: transient interruption (EINTR)";
 
 /// Bound on reads after EOF before the reader starts failing, so that a
 /// consumer that never stops asking cannot hang the harness.
@@ -90,7 +96,11 @@ impl<'a> SchedReader<'a> {
             Sched::Random(s, _) => *s,
             _ => 0,
         };
-        SchedReader { data, pos: 0, sched, rng: Rng::new(seed), fault_at: None, fault_kind: io::ErrorKind::Other, log: Rc::new(RefCell::new(ReadLog::default())) }
+        SchedReader { data, pos: 0, sched, rng: Rng::new(seed), fault_at: None, fault_kind: io::ErrorKind::Other, interrupt_every: None, log: Rc::new(RefCell::new(ReadLog::default())) }
+    }
+    pub fn with_interrupts(mut self, every: u64) -> Self {
+        self.interrupt_every = Some(every.max(2));
+        self
     }
     pub fn with_fault(mut self, k: usize) -> Self {
         self.fault_at = Some(k);
@@ -113,6 +123,11 @@ impl<'a> Read for SchedReader<'a> {
         if buf.is_empty() {
             log.zero_len_bufs += 1;
             return Ok(0);
+        }
+        if let Some(n) = self.interrupt_every {
+            if log.calls % n == 0 {
+                return Err(io::Error::new(io::ErrorKind::Interrupted, INTERRUPT_MARK));
+            }
         }
         let mut limit = self.data.len();
         if let Some(k) = self.fault_at {
